@@ -2,11 +2,13 @@
 import wiring
 
 
-def emit(ctx, rep, prop, aspects, rule_id):
+def emit(ctx, rep, prop, aspects, rule_id, key_re=None):
+    """report the wiring obligations of the given aspects (optionally only those whose key matches key_re) under `prop`"""
+    import re
     obls, stats = wiring.analyse(ctx)
     n = 0
     for o in obls:
-        if o.aspect in aspects:
+        if o.aspect in aspects and (key_re is None or re.search(key_re, o.key)):
             n += 1
             if o.ok:
                 rep.ok(rule_id, o.key, o.sample)
@@ -14,3 +16,23 @@ def emit(ctx, rep, prop, aspects, rule_id):
                 rep.fail(rule_id, "%s|%s" % (prop, o.key), o.where, o.message, witness=o.witness)
     rep.analysed["user-written grammar actions interpreted"] = stats["user_actions"]
     return n, stats
+
+
+# what each validation rule reads from the tree: the grammar actions that fill those fields are obligations of that
+# property too (a validation rule fed a wrong input gives wrong diagnostics although its own code is untouched)
+INPUTS = {
+    "C05": r"\|(Type\w*/\d+\|(kind|name|generic_types|children|wrapper)|QualifiedName/0|Import/0\|(path|name)|DeclaredParcelable/0\|(path|name)|Package/0\|name|OptAidl/0\|(package|imports|declared_parcelables|item)|(Interface|Parcelable|Enum)/0\|name)",
+    "C06": r"\|(QualifiedName/0|Import/0\|(path|name)|DeclaredParcelable/0\|(path|name)|OptAidl/0\|(imports|declared_parcelables)|Type\w*/\d+\|(kind|name))",
+    "C07": r"\|(Type\w*/\d+\|(kind|generic_types|children|wrapper)|Arg/0\|(direction|arg_type)|Direction/0|Method/0\|(args|oneway)|CommaSeparated<Arg>)",
+    "C08": r"\|(Type\w*/\d+\|(kind|generic_types|children|wrapper)|(Method|Arg|Field|Const)/0\|(return_type|arg_type|field_type|const_type|args))",
+    "C09": r"\|(Method/0\|(name|transact_code)|Interface/0\|elements|OptInterfaceElement)",
+    "C10": r"\|(Method/0\|(return_type|oneway)|Interface/0\|(oneway|elements)|TypeVoid/0\|kind|OptInterfaceElement)",
+    "C17": r"\|(QualifiedName/0|Package/0\|name|(Interface|Parcelable|Enum)/0\|name|OptAidl/0\|(package|item))",
+}
+
+
+def emit_inputs(ctx, rep, prop, rule_id="IN"):
+    rep.rule(rule_id, "the grammar actions that fill the tree fields this property's validation rules read (spec/wiring.json; A9 wiring analysis) - "
+                      "the rule's input is what the source says: " + INPUTS[prop].replace("\\", ""))
+    n, _ = emit(ctx, rep, prop, {"value", "arity", "ident", "direction", "oneway"}, rule_id, INPUTS[prop])
+    return n
